@@ -263,7 +263,7 @@ Lemma ep_deposit_spec s c tok amt s' o :
     0 <= amt /\ side_of_token tok = Ok l /\ o = [amt] /\
     delta s s' l c amt amt 0 amt amt /\
     calculate_price s' = Ok price /\
-    (l = true -> price = 0 \/ c_minp (p_cfg s) <= price).
+    (l = true -> p_ab s = 0 \/ c_minp (p_cfg s) <= price).
 Proof.
   unfold ep_deposit. intros H.
   apply bind_ok in H. destruct H as (ph & Hph & H).
@@ -271,7 +271,7 @@ Proof.
   destruct (0 <=? amt) eqn:E0; [|discriminate]. apply Z.leb_le in E0.
   apply bind_ok in H. destruct H as (l & Hl & H). cbv zeta in H.
   apply bind_ok in H. destruct H as (price & Hp & H).
-  destruct ((price =? 0) || (c_minp (p_cfg s) <=? price) || negb l) eqn:Ef; [|discriminate].
+  destruct ((p_ab (set_tr s l (bal_tr s l + amt)) =? 0) || (c_minp (p_cfg s) <=? price) || negb l) eqn:Ef; [|discriminate].
   inversion H; subst; clear H.
   exists ph, l, price.
   split; [exact Hph|]. split; [exact Ea|]. split; [exact E0|]. split; [exact Hl|]. split; [reflexivity|].
@@ -280,7 +280,7 @@ Proof.
   split.
   { destruct l; exact Hp. }
   intros ->. rewrite orb_false_r in Ef. apply orb_prop in Ef.
-  destruct Ef as [Ef|Ef]; [apply Z.eqb_eq in Ef; auto | apply Z.leb_le in Ef; auto].
+  destruct Ef as [Ef|Ef]; [apply Z.eqb_eq in Ef; simpl in Ef; auto | apply Z.leb_le in Ef; auto].
 Qed.
 
 Lemma ep_withdraw_spec s c n amt s' o :
@@ -818,28 +818,53 @@ Proof.
   intros H. unfold view_price, calculate_price. destruct (0 <? p_lb s) eqn:E; [apply Z.ltb_lt in E; lia | reflexivity].
 Qed.
 
-(** an accepted launched-token deposit leaves the price at zero or at/above the minimum *)
+(** an accepted launched-token deposit leaves the price at/above the minimum whenever accepted tokens
+    are present; with no accepted tokens at all the price is 0 by definition *)
 Lemma deposit_floor s c amt s' o :
   ep_deposit s c TOK_L amt = Ok (s', o) ->
-  exists p, view_price s' = Ok p /\ (p = 0 \/ c_minp (p_cfg s') <= p).
+  exists p, view_price s' = Ok p /\ p_ab s' = p_ab s /\
+    (0 < p_ab s' -> c_minp (p_cfg s') <= p) /\ (p_ab s' = 0 -> p = 0).
 Proof.
   intros H. apply ep_deposit_spec in H.
   destruct H as (ph & l & price & _ & _ & _ & Hl & _ & D & Hp & Hf).
   apply side_of_token_spec in Hl. destruct Hl as [[-> _]|[_ Hc]]; [|discriminate Hc].
-  exists price. split; [exact Hp|]. destruct D. rewrite d_cfg0. apply Hf. reflexivity.
+  exists price. split; [exact Hp|]. destruct D. simpl in *. split; [exact d_tr'0|].
+  rewrite d_cfg0, d_tr'0. split.
+  - intros Hpos. destruct (Hf eq_refl) as [Hz|Hm]; [lia | exact Hm].
+  - intros Hz. apply calculate_price_spec in Hp. destruct Hp as [_ ->]. rewrite d_tr'0, Hz. reflexivity.
 Qed.
 
-(** ... and one that would leave it strictly between zero and the minimum is rejected *)
+(** ... and one that would leave it below the minimum while accepted tokens are present is rejected *)
 Lemma deposit_floor_rejects s c amt :
-  0 < p_ab s * c_prec (p_cfg s) / (p_lb s + amt) < c_minp (p_cfg s) ->
+  0 < p_ab s ->
+  p_ab s * c_prec (p_cfg s) / (p_lb s + amt) < c_minp (p_cfg s) ->
   is_ok (ep_deposit s c TOK_L amt) = false.
 Proof.
-  intros Hlt. destruct (ep_deposit s c TOK_L amt) as [[s' o]|] eqn:E; [|reflexivity].
+  intros Hab Hlt. destruct (ep_deposit s c TOK_L amt) as [[s' o]|] eqn:E; [|reflexivity].
   exfalso. apply ep_deposit_spec in E.
   destruct E as (ph & l & price & _ & _ & _ & Hl & _ & D & Hp & Hf).
   apply side_of_token_spec in Hl. destruct Hl as [[-> _]|[_ Hc]]; [|discriminate Hc].
   apply calculate_price_spec in Hp. destruct Hp as [_ Hp]. destruct D. simpl in *.
-  rewrite d_cfg0, d_tr0, d_tr'0 in Hp. specialize (Hf eq_refl). lia.
+  rewrite d_cfg0, d_tr0, d_tr'0 in Hp. destruct (Hf eq_refl); lia.
+Qed.
+
+(** the bootstrap case, precisely: while NO accepted tokens are deposited the price is 0 by definition and
+    a launched-token deposit is accepted in the deposit phases whatever the minimum price is (it only has
+    to leave a positive launched balance, otherwise no price is defined) *)
+Lemma deposit_bootstrap s c amt ph :
+  get_current_phase (p_cfg s) (p_block s) = Ok ph -> deposit_allowed ph = true ->
+  0 <= amt -> 0 < p_lb s + amt -> p_ab s = 0 ->
+  exists s', ep_deposit s c TOK_L amt = Ok (s', [amt]) /\ view_price s' = Ok 0 /\ p_ab s' = 0.
+Proof.
+  intros Hph Ha Hamt Hlb Hab. unfold ep_deposit. rewrite Hph. cbn [bind]. rewrite Ha.
+  destruct (0 <=? amt) eqn:E0; [|apply Z.leb_gt in E0; lia].
+  change (side_of_token TOK_L) with (@Ok bool true). cbn [bind]. cbv zeta.
+  unfold calculate_price at 1. cbn [set_tr bal_tr p_lb p_ab p_cfg].
+  destruct (0 <? p_lb s + amt) eqn:E1; [|apply Z.ltb_ge in E1; lia].
+  unfold div_chk. destruct (p_lb s + amt =? 0) eqn:E2; [apply Z.eqb_eq in E2; lia|]. cbn [bind].
+  rewrite Hab. cbn [Z.eqb orb].
+  eexists. split; [reflexivity|].
+  unfold view_price, calculate_price. cbn. rewrite E1. unfold div_chk. rewrite E2. split; reflexivity.
 Qed.
 
 (** any accepted withdrawal leaves the price at/above the minimum *)
@@ -908,33 +933,16 @@ Proof.
   destruct T as (T1 & T2 & T3 & T4 & _). repeat split; try assumption; lia.
 Qed.
 
-(** ------------------------------------------------------------------ the zero-price escape
-    The property text says a launched-token deposit that would leave the price below the minimum is
-    rejected.  The code accepts it when the resulting price ROUNDS TO ZERO (the [current_price == 0 ||]
-    disjunct of deposit, needed for the very first deposit when no accepted tokens exist yet): with
-    accepted liquidity present and the price at/above the minimum, a large enough launched deposit is
-    accepted and leaves price 0 < minimum. *)
+(** ------------------------------------------------------------------ regression: the former zero-price escape
+    Before /repo commit 398b115 the deposit guard read [current_price == 0 || ...], so with accepted
+    liquidity present a launched-token deposit large enough to make the price ROUND to zero skipped the
+    floor (history below: price 10 >= minimum 5, then a deposit of 1000 launched tokens left price 0).
+    The guard now reads [accepted_token_balance == 0 || ...]; the same deposit is rejected. *)
 Definition wit_s0 : pd := mkPd (mkCfg 2 5 5 5 0 0 0 5 1) 1 0 0 0 0 0 0 [] [].
 Definition wit_ops : list pdop := [Tick 1; Deposit 1 TOK_L 10; Deposit 1 TOK_A 100].
 
 Lemma wit_init : init_pd 1 0 5 2 5 5 5 0 0 0 = Ok wit_s0.
 Proof. vm_compute. reflexivity. Qed.
-
-Lemma zero_price_escape :
-  exists s c amt s' o p,
-    Inv s /\ 0 < c_minp (p_cfg s) /\ 0 < p_ab s /\
-    view_price s = Ok p /\ c_minp (p_cfg s) <= p /\
-    ep_deposit s c TOK_L amt = Ok (s', o) /\ view_price s' = Ok 0.
-Proof.
-  exists (run wit_s0 wit_ops), 2, 1000.
-  destruct (ep_deposit (run wit_s0 wit_ops) 2 TOK_L 1000) as [[s' o]|] eqn:E; [|vm_compute in E; discriminate].
-  exists s', o, 10.
-  split; [eapply reach_inv; exact wit_init|].
-  split; [vm_compute; reflexivity|]. split; [vm_compute; reflexivity|].
-  split; [vm_compute; reflexivity|]. split; [vm_compute; discriminate|].
-  split; [reflexivity|].
-  vm_compute in E. inversion E; subst. vm_compute. reflexivity.
-Qed.
 
 (** ------------------------------------------------------------------ packaged statements cited by Props/C17.v *)
 Lemma phases_only_advance s ops ph ph' : Inv s ->
